@@ -476,11 +476,12 @@ def ir_jsonable(ir):
         return repr(v)
 
     out = {k: conv(v) for k, v in ir.items() if k not in ("params", "returns", "_internal")}
-    out["params"] = [[n, {k: conv(v) for k, v in p.items()}] for n, p in (ir.get("params") or {}).items()]
+    # (the order of parameters is explicit; the key order INSIDE one entry is not part of the description)
+    out["params"] = [[n, {k: conv(p[k]) for k in sorted(p)}] for n, p in (ir.get("params") or {}).items()]
     out["returns"] = (
         None
         if not ir.get("returns")
-        else [[n, {k: conv(v) for k, v in p.items()}] for n, p in ir["returns"].items()]
+        else [[n, {k: conv(p[k]) for k in sorted(p)}] for n, p in ir["returns"].items()]
     )
     return out
 
